@@ -496,7 +496,6 @@ namespace GeographicLib {
   void AlbersEqualArea::Forward(real lon0, real lat, real lon,
                                 real& x, real& y, real& gamma, real& k) const {
     lon = Math::AngDiff(lon0, lon);
-    lat *= _sign;
     real sphi, cphi;
     Math::sincosd(Math::LatFix(lat) * _sign, sphi, cphi);
     cphi = fmax(epsx_, cphi);
